@@ -267,7 +267,7 @@ class Layout:
             sz = es * t.n
             return sz, sz
         if k == 'struct':
-            key = id(t)
+            key = s.skey(t)      # structural key (object ids are reused after garbage collection)
             if key in s.cache: return s.cache[key][0], s.cache[key][1]
             off = 0; al = 1; offs = []
             for f in t.fields:
@@ -286,7 +286,19 @@ class Layout:
     def field_off(s, t, i):
         t = s.res(t)
         s.size_align(t)
-        return s.cache[id(t)][2][i]
+        return s.cache[s.skey(t)][2][i]
+
+    def skey(s, t):
+        t = s.res(t)
+        k = t.k
+        if k == 'int': return 'i%d' % t.bits
+        if k in ('float', 'double', 'void', 'fp80', 'opaque', 'label', 'metadata'): return k
+        if k == 'ptr': return 'p'
+        if k == 'func': return 'f'
+        if k == 'struct': return ('P(' if t.packed else 'S(') + ','.join(s.skey(f) for f in t.fields) + ')'
+        if k == 'array': return 'A%d(%s)' % (t.n, s.skey(t.elem))
+        if k == 'vector': return 'V%d(%s)' % (t.n, s.skey(t.elem))
+        raise ValueError('skey %s' % k)
 
 # ---------------------------------------------------------------- module parse
 class Func:
